@@ -79,7 +79,7 @@ class Con(object):
         elif k == 'round':
             x[0] = float(np.round(x[0]))
         elif k == 'tie':
-            if len(x) > 1: x[1] = x[0] - 0.5
+            if len(x) > 1: x[1] = 0.5 * x[0] + 0.25
             else: x[0] = min(x[0], 1.0)
         elif k == 'push':
             if len(x) > 1: x[1] = x[0] + 2.0
@@ -290,12 +290,12 @@ class Lab(object):
         if sym is None:
             return None
         if sym == 'symbolic':
-            return symbolic_con()
+            return cached('symbolic_con', symbolic_con)
         kind, variant = (sym.split('/') + ['pure'])[:2]
         return Con(kind, variant == 'inplace')
 
     def pen(self, sym):
-        return None if sym is None else Pen(sym)
+        return None if sym is None else cached(('livepen', sym), lambda: Pen(sym))
 
     # .................................................. construction
     def _build(self):
@@ -432,3 +432,127 @@ def objective_of(cfg_state, x, cost_raw):
     """independent rebuild of the objective the statement describes:
     y = c(x); inf (no call) if y outside the box; reducer(cost(y)) + penalty(y)"""
     raise NotImplementedError
+
+
+# ------------------------------------------------------------------ reference objective
+_CACHE = {}
+
+
+def cached(key, build):
+    if key not in _CACHE:
+        _CACHE[key] = build()
+    return _CACHE[key]
+
+
+def ref_con(sym):
+    """a fresh, harness-owned instance of the constraint named by sym (pure variant)"""
+    if sym is None:
+        return None
+    if sym == 'symbolic':
+        c = cached('symbolic_con', symbolic_con)
+        return lambda x: list(c(list(x)))
+    kind = sym.split('/')[0]
+    return Con(kind, False)
+
+
+def ref_pen(sym):
+    if sym is None:
+        return None
+    return cached(('pen', sym), lambda: Pen(sym))
+
+
+class Settings(object):
+    """harness-side record of the configuration in force, updated from ops;
+    rebuilds the objective exactly as the property statement words it"""
+
+    def __init__(self, cfg):
+        self.dim = cfg.get('dim', 2)
+        self.box = cfg.get('box')
+        self.tight = cfg.get('tight')
+        self.clip = cfg.get('clip')
+        self.con = cfg.get('constraint')
+        self.pen = cfg.get('penalty')
+        self.red = cfg.get('reducer')
+
+    def update(self, op):
+        name = op[0]
+        if name == 'SetStrictRanges':
+            self.box = None if op[1] is False else op[1]
+            self.tight = op[2] if len(op) > 2 else None
+            self.clip = op[3] if len(op) > 3 else None
+        elif name == 'SetConstraints':
+            self.con = op[1]
+        elif name == 'SetPenalty':
+            self.pen = op[1]
+        elif name == 'SetReducer':
+            self.red = op[1]
+
+    # the box as numbers
+    def limits(self):
+        return effective_box(self.box, self.dim)
+
+    def bounds_as_constraint(self):
+        return self.box is not None and (self.tight is True or self.clip is not None)
+
+    def C(self, x):
+        """effective constraints: user constraint and (when tight/clip) the clipping
+        bounds constraint, applied in turn until neither changes the point"""
+        x = [float(v) for v in x]
+        user = ref_con(self.con)
+        lim = self.limits() if self.bounds_as_constraint() else None
+        for _ in range(50):
+            y = list(user(list(x))) if user is not None else list(x)
+            y = [float(v) for v in y]
+            if lim is not None:
+                y = [min(max(v, l), h) for v, l, h in zip(y, lim[0], lim[1])]
+            if y == x:
+                return x
+            x = y
+        return x
+
+    def satisfied(self, x):
+        """does x satisfy the user constraint (c(x) == x)?"""
+        user = ref_con(self.con)
+        if user is None:
+            return True
+        y = [float(v) for v in user([float(v) for v in x])]
+        return y == [float(v) for v in x]
+
+    def raw_objective(self, x):
+        """reducer(cost(x)) + penalty(x) at the literal point x (no constraints, no bounds)"""
+        raise NotImplementedError
+
+    def objective_at(self, x, costname):
+        v = COSTS[costname](tuple(float(a) for a in x))
+        if isinstance(v, np.ndarray):
+            v = REDUCERS[self.red](v) if self.red else v
+        p = ref_pen(self.pen)
+        pv = float(p(list(x))) if p is not None else 0.0
+        return _f(v + pv) if not isinstance(v, float) else v + pv
+
+    def J(self, x, costname):
+        y = self.C(x)
+        lim = self.limits()
+        if lim is not None and not inbox(y, lim):
+            return INF
+        return self.objective_at(y, costname)
+
+
+def compatible(consym, box, dim):
+    """does the constraint map the (effective) box into itself? checked on a grid incl. faces and far points"""
+    if consym is None or box is None:
+        return True
+    c = ref_con(consym)
+    lo, hi = effective_box(box, dim)
+    import itertools
+    axes = []
+    for l, h in zip(lo, hi):
+        l2 = max(l, -50.0); h2 = min(h, 50.0)
+        axes.append(sorted({l2, h2, (l2 + h2) / 2.0, l2 + (h2 - l2) * 0.25, l2 + (h2 - l2) * 0.9}))
+    for p in itertools.product(*axes):
+        y = [float(v) for v in c(list(p))]
+        if not inbox(y, (lo, hi)):
+            return False
+        if [float(v) for v in c(list(y))] != y:
+            return False
+    return True
